@@ -5,8 +5,9 @@ c+K and advances by one; nth(n) returns None exactly when c + n >= N; after eith
 the end test stays reachable and no endless stream is possible) and every base / k-mer read lies inside the node (no
 k-mer of a neighbouring node, no out-of-range panic) — a violation is reported with a concrete small (c, N, n, K)
 found by a decision procedure over the recorded linear constraints; into_iter sets (0, len-K+1, first k-mer),
-size_hint reports num_kmers, and the node iterators visit node i for i = 0..len exactly once each."""
-from .. import dt_seq, structural
+size_hint reports num_kmers, and the node iterators visit node i for i = 0..len exactly once each; the k-mer reads it relies
+on (DnaStringSlice::get_kmer remap, DnaString::get_kmer block walk for every k-mer type) return the K bases at the position."""
+from .. import dt_seq, structural, lemmas
 
 ASSUMPTIONS = ["nodes have at least K bases (num_kmers = len - K + 1 does not underflow)", "debug_assert! does not count as a guard (analysed with debug-assertions off)"]
 
@@ -14,6 +15,11 @@ ASSUMPTIONS = ["nodes have at least K bases (num_kmers = len - K + 1 does not un
 def run(F, rep):
     rep.engines.update(["E2-DT", "affine", "E1"])
     dt_seq.node_kmer_iter_tables(F, rep, "C18.1")
+    # the k-mer reads the iterator relies on (first k-mer in into_iter, re-synchronisation after a long skip in nth): the view remap of
+    # DnaStringSlice::get_kmer and the block walk of DnaString::get_kmer (every offset for the k-mer types wider than one word)
+    dt_seq.slice_view_tables(F, rep, "C18.6")
+    lemmas.dnastring_lemmas(F, rep, which={"get_kmer"},
+                            kmer_positions=(lambda K: range(0, 70)) if rep.tier == "thorough" else (lambda K: range(0, 70) if K > 32 else (0, 1, 17, 31, 32, 33, 63)))
     vis = structural.field_vis(F, "graph::NodeKmerIter") or {}
     if vis and all(v != "pub" for v in vis.values()):
         rep.holds("C18.5", "fields-private", "the iterator's counters cannot be desynchronised from outside the crate")
